@@ -69,7 +69,9 @@ class NNXMeta(struct.PyTreeNode, meta.AxisMetadata[A]):
     return spmd.get_partition_spec(nnx_var).value
 
   def to_nnx_variable(self) -> variablelib.Variable:
-    return self.var_type(self.value, **self.metadata)
+    # the value and metadata come from an existing Variable: rebuild it without
+    # running __init__ (and its on_create_value hooks) a second time.
+    return self.var_type.from_metadata(self.value, dict(self.metadata))
 
 
 def is_vanilla_variable(vs: variablelib.VariableState) -> bool:
